@@ -25,7 +25,10 @@ RULE = ("G-bits: every length 0..600 (quick) / 0..4096 (thorough) with random, a
         "directed Intel HEX families beyond 64 Ki units and with unaligned blocks; stream `groups`: the real customasm binary "
         "run ONCE with 2..6 `--`-separated output groups (same format kind with different parameters / aliases, mixes of "
         "all formats, -o files and -p) on generated multi-block programs of any bit length, each group's file decoded "
-        "against asm::assemble's bits and compared with a single-group run. Each case: implementation text == extracted "
+        "against asm::assemble's bits and compared with a single-group run; stream `histories`: the file each format leaves ON DISK "
+        "after a history (2..3 builds into the same names, a long output then a short one, other formats before; a pre-existing "
+        "stale file of arbitrary bytes; one name shared by several groups of one invocation), decoded against the bits of the "
+        "last run and compared with a fresh run. Each case: implementation text == extracted "
         "model text, and extracted decoder(implementation text) == bits padded to the granule. non-trivial = distinct "
         "(format, length, contents) whose length is not a multiple of the format's line/record size (a partial last "
         "granule, byte, line or record), or a multi-block layout")
@@ -309,7 +312,7 @@ def replay(chk, rep):
     bins = vlib.harness_build(("debug", "release"), bins=["fmt"])
     model = [vlib.ocaml_build("fmt_driver", ["fmt_model"])]
     r = rep.get("replay", rep)
-    if r.get("kind") == "groups":
+    if r.get("kind") in ("groups", "history"):
         return c11_groups.replay(r)
     line = r.get("impl_line")
     if not line:
